@@ -82,6 +82,80 @@ class SimParallel:
         return results
 
 
+class _SimFuture:
+    def __init__(self):
+        self._done = False
+        self._res = None
+        self._exc = None
+
+    def result(self, timeout=None):
+        if self._exc is not None:
+            raise self._exc
+        return self._res
+
+    def exception(self, timeout=None):
+        return self._exc
+
+    def done(self):
+        return self._done
+
+
+class SimThreadPoolExecutor:
+    """stand-in for concurrent.futures.ThreadPoolExecutor should the library use one instead of joblib: the submitted
+    calls run on baton-passed simulated workers; as with the real class an exception stays inside its future / the result
+    iterator and is lost if nobody asks for it"""
+
+    def __init__(self, max_workers=None, **kw):
+        self.max_workers = max_workers or 4
+        self._pending = []
+
+    def __enter__(self):
+        return self
+
+    def __exit__(self, *a):
+        self.shutdown()
+        return False
+
+    def _run(self):
+        pending, self._pending = self._pending, []
+        if not pending:
+            return
+        sim = SIM
+        sim.stat('parallel_batches')
+        queue = list(pending)
+
+        def worker():
+            while queue:
+                fut, f, a, k = queue.pop(0)
+                sim.yield_point('task')
+                try:
+                    fut._res = f(*a, **k)
+                except kernel.SimAbort:
+                    raise
+                except BaseException as e:
+                    fut._exc = e
+                fut._done = True
+
+        sim.run_workers([worker] * min(self.max_workers, len(pending)))
+
+    def submit(self, f, *a, **k):
+        fut = _SimFuture()
+        self._pending.append((fut, f, a, k))
+        return fut
+
+    def map(self, f, *iterables, timeout=None, chunksize=1):
+        futs = [self.submit(f, *args) for args in zip(*iterables)]
+        self._run()
+
+        def results():
+            for fut in futs:
+                yield fut.result()
+        return results()
+
+    def shutdown(self, wait=True, cancel_futures=False):
+        self._run()
+
+
 def sim_delayed(f):
     def d(*a, **k):
         return (f, a, k)
@@ -412,12 +486,17 @@ def install():
     import artap.algorithm_NSGAII as ns
     import artap.algorithm_sweep as swp
     RNG = SimRandom()
-    for mod, name in ((ops, 'Parallel'), (ops, 'delayed'), (ds, 'sqlite3'), (job, 'time'), (pr, 'atexit'),
+    if not hasattr(ops, 'Parallel') and not hasattr(ops, 'ThreadPoolExecutor'):
+        raise HarnessError('seam missing: artap.operators has neither Parallel (joblib) nor ThreadPoolExecutor')
+    for mod, name in ((ds, 'sqlite3'), (job, 'time'), (pr, 'atexit'),
                       (alg, 'uuid1'), (ops, 'random'), (ut, 'random'), (sw, 'uniform'),
                       (ar, 'choice'), (ar, 'sample')):
         _need(mod, name)
-    ops.Parallel = SimParallel
-    ops.delayed = sim_delayed
+    if hasattr(ops, 'Parallel'):
+        ops.Parallel = SimParallel
+        ops.delayed = sim_delayed
+    if hasattr(ops, 'ThreadPoolExecutor'):
+        ops.ThreadPoolExecutor = SimThreadPoolExecutor
     ds.sqlite3 = sqlproxy
     clock = types.SimpleNamespace(time=lambda: SIM.now if SIM is not None else kernel.EPOCH)
 
